@@ -219,17 +219,25 @@ CHECKS["C08"] = dict(
     technique="Coq proof of index-range invariants of the modelled routines + sanitizer and determinism replays")
 CHECKS["C16"] = dict(
     category="proof",
-    text=("24 Coq theorems over a model of the drawing editor (points, straight segments, block labels; 22 commands as the Lua "
+    text=("54 Coq theorems over a model of the drawing editor (points, straight segments, arcs, block labels; the commands as the Lua "
           "layer issues them), for every instantiation of the geometric predicates: every reachable drawing has all segments "
           "joining two distinct existing points and no duplicate segment (all command sequences, with the repaired "
           "deleteselectednodes; guarded / refuted variants for the former code and for the known findings), selection empty "
           "after completed commands, per-command snap distance, delete renumbers consistently, copies at exactly the transformed "
           "coordinates with their properties. The binary64 model reproduces the real FemmProblem state after every operation bit "
           "for bit; an exact-rational oracle checks the PSLG invariants (incl. arcs, crossings, labels) on the implementation's "
-          "dumps; copy-heavy sequences are replayed under ASan. Partial: arcs/createRadius not modelled, planarity proper is "
-          "oracle-checked; four recorded known findings (F2, F3, F4, F6)."),
+          "dumps; copy-heavy sequences are replayed under ASan. Arc segments are modelled by the extension DrawingArc.v "
+          "(addArcSegment with its recursive split, the arc parts of addNode / addSegment / enforcePSLG / delete / move / copy / "
+          "mirror, closestArcSegment, createRadius; libm values recorded from the implementation): 30 further theorems "
+          "(Properties_C16_arc.v) — every arc joins two distinct existing points, no duplicate arc in the sense of addArcSegment's "
+          "own test (partial / refuted variants for the double-split cases), consistent renumbering on delete, copies of arcs at "
+          "the transformed end points with the same angle and properties (mirror reverses), selection empty, a split point is "
+          "never within dmin of an end point, and the arc-free fragment equals Drawing.v; arc-rich op sequences are compared "
+          "state by state, bit for bit. Partial: planarity proper (arcs meet lines only at points) depends on the geometric "
+          "oracles and is oracle-checked; termination of the two recursions is on fuel; four recorded known findings "
+          "(F2, F3, F4, F6)."),
     design_ref="DESIGN.md §5 C16",
-    note="Trusted: Coq kernel (+Reals axioms / primitive floats where RA/FA are used); hand-written model tied by harness/h_drawing.cpp op-sequence correspondence; python Fraction oracle.",
+    note="Trusted: Coq kernel (+Reals axioms / primitive floats where RA/FA are used); hand-written models tied by harness/h_drawing.cpp and harness/h_drawing_arc.cpp op-sequence correspondence (sin/tan/atan2 values recorded by interposition); python Fraction oracle.",
     technique="Coq proof (invariant by induction over all edit sequences, generic in the geometric predicates) + op-sequence correspondence + sanitizer replay")
 CHECKS["C07"] = dict(
     category="proof",
